@@ -975,6 +975,11 @@ func (c *Client) backwards(
 		verifiedHeader = interimHeader
 	}
 
+	// the chain of hashes must end at the header we were asked to verify, not just at its height
+	if !bytes.Equal(verifiedHeader.Hash(), newHeader.Hash()) {
+		return fmt.Errorf("backwards verification ended at header %X, expected %X", verifiedHeader.Hash(), newHeader.Hash())
+	}
+
 	return nil
 }
 
